@@ -446,6 +446,10 @@ def run(ctx, R, R2):
                 e, val = d[-1][2], d[-1][3]
                 idx = byte_index(e[2])
                 absent = (e[1] == 'Ge') == bool(val)
+                _W = {'u8': 8, 'u16': 16, 'u32': 32, 'u64': 64, 'usize': 64, 'i8': 8, 'i16': 16, 'i32': 32, 'i64': 64, 'isize': 64}
+                narrowed = [x for x in walk(e[3]) if x[0] == 'cast' and len(x) >= 5 and _W.get(x[2], 64) < 16 and _W.get(x[4], 64) > _W.get(x[2], 64)]
+                if narrowed:
+                    ctx.violation(R2, 'index-path:narrowed', 'the transition count is cut down to %s before the index entry is compared with it: a node has up to 256 transitions and 256 becomes 0, so every entry of a full node counts as "no transition"' % narrowed[0][2], fn=f)
                 got = rlin(idx) if idx else None
                 if got is None:
                     ctx.undecided(R2, 'index-path:offset', 'cannot reconstruct where the index entry of byte b is read', fn=f)
